@@ -24,7 +24,7 @@ from mc.oracles import grpC_tm as T
 PROPERTY = "C09"
 LEVEL = "model_checking"
 RULE = (
-    "one case = one (schedule, dt_init, dt_min_max kind) with all relax/recomputation "
+    "one case = one (schedule, dt_init, dt_min_max kind, relax factors) with all recomputation "
     "parameter combinations; per accepted configuration: (H) BFS from the initial clock "
     "state over all answer sequences (lo/in/hi iterations, fail) up to the depth bound, "
     "states de-duplicated on the exact (time, dt, schedule cursor, recomputation count, "
@@ -109,7 +109,7 @@ BOUNDS = {
     "(n > 10) deviations; all runs to the end",
 }
 MIN_CLASSES = 8
-CHUNK = 4
+CHUNK = 6
 
 
 def _dtmm(kind, dt, first):
@@ -130,8 +130,9 @@ def cases(tier):
         for frac in P["fracs"]:
             dt = first * frac
             for kind in P["dtmm"]:
-                out.append({"schedule": sched, "dt_init": dt, "dtmm": kind, "tier": tier})
-            out.append({"schedule": sched, "dt_init": dt, "dtmm": "constant", "tier": tier})
+                for relax in P["relax"]:
+                    out.append({"schedule": sched, "dt_init": dt, "dtmm": kind, "relax": list(relax), "tier": tier})
+            out.append({"schedule": sched, "dt_init": dt, "dtmm": "constant", "relax": None, "tier": tier})
     return out
 
 
@@ -142,17 +143,16 @@ def _configs(case):
     if case["dtmm"] == "constant":
         yield {"schedule": sched, "dt_init": dt, "constant_dt": True, "dt_min_max": None}
         return
-    for relax in P["relax"]:
-        for rf, rmax in P["recomp"]:
-            yield {
-                "schedule": sched,
-                "dt_init": dt,
-                "constant_dt": False,
-                "dt_min_max": _dtmm(case["dtmm"], dt, first),
-                "iter_relax_factors": list(relax),
-                "recomp_factor": rf,
-                "recomp_max": rmax,
-            }
+    for rf, rmax in P["recomp"]:
+        yield {
+            "schedule": sched,
+            "dt_init": dt,
+            "constant_dt": False,
+            "dt_min_max": _dtmm(case["dtmm"], dt, first),
+            "iter_relax_factors": list(case["relax"]),
+            "recomp_factor": rf,
+            "recomp_max": rmax,
+        }
 
 
 # ---------------------------------------------------------------------- engines
@@ -343,7 +343,7 @@ def run_case(case) -> Outcome:
     first = round(sched[1] - sched[0], 10)
     assert dt <= first * (1 + 1e-12)  # the initial step fits in the first scheduled interval
     for j, cfg in enumerate(_configs(case)):
-        cid = (tuple(sched), dt, case["dtmm"], j)
+        cid = (tuple(sched), dt, case["dtmm"], tuple(case["relax"] or ()), j)
         valid, why = T.documented_valid(cfg)
         try:
             T.make_tm(cfg)
